@@ -269,6 +269,11 @@ func (m *monC13) OnStep(r *Runner, st *Step) {
 				if a, ok := pre.Assets[p.Denom]; ok && (a.TotalTokens.IsZero() || a.TotalValidatorShares.IsZero()) {
 					orphan = true
 				}
+				// the validator's shares in this asset were cleared as "dust" (its 18-digit fraction of the asset rounds
+				// to zero) while this delegation still exists: the position is worth nothing although it holds shares
+				if pre.PosValue(p).Sign() == 0 && pre.Dels[p].Shares.IsPositive() {
+					orphan = true
+				}
 			}
 			switch {
 			case orphan && g.Cmp(w) < 0:
